@@ -8,7 +8,7 @@ if ! git -C $WT apply $SEED/patch.diff; then echo "PATCH-DOES-NOT-APPLY $NAME"; 
 if [ -f $SEED/demo.py ]; then
   (cd $SEED && PYTHONPATH=$WT/src NUMBA_DISABLE_JIT=1 timeout 900 /venv/bin/python demo.py > /tmp/seed-demo-$NAME.log 2>&1); echo "demo(mutated) exit=$?"
 fi
-cd /verif && VERIF_REPO_SRC=$WT/src ./check $ID --tier $TIER > /tmp/seed-check-$NAME-$ID.log 2>&1; rc=$?
+cd ${VERIF_HOME:-/verif} && VERIF_REPO_SRC=$WT/src ./check $ID --tier $TIER > /tmp/seed-check-$NAME-$ID.log 2>&1; rc=$?
 echo "check $ID [$TIER] on seed $NAME: exit=$rc  $(grep -c '^VIOLATION' /tmp/seed-check-$NAME-$ID.log) violation line(s); $(tail -1 /tmp/seed-check-$NAME-$ID.log | cut -c1-160)"
 grep -m3 "signature:" /tmp/seed-check-$NAME-$ID.log
 git -C /repo worktree remove --force $WT
